@@ -87,6 +87,12 @@ def checkInfer (op : String) (args res : List String) : Verdict :=
             match pBoxes? boxes with
             | none => .skip "parse boxes"
             | some bs =>
+              -- a variable that does not occur is not constrained: whenever the constraint has a solution its interval must be full
+              let stray := bs.find? (fun b => !(qs.any (fun q => q.x = b.1)) && !isFull b.2)
+              match sol, stray with
+              | .box _, some b | .unbounded, some b =>
+                .viol "inf/bounds/unsound" s!"interval reported for x{b.1}, which does not occur in the constraint (stale entry of the interval assignment?)"
+              | _, _ =>
               match sol with
               | .empty => .ok s!"inf/bounds/empty-but-bounded/{cσ}"
               | .unbounded =>
